@@ -144,7 +144,7 @@ func parseLinkReferenceDefinition(block text.Reader, pc Context) (int, int) {
 		// title, and its line is not a part of the definition.
 		ref := NewReference(label, destination, nil)
 		pc.AddReference(ref)
-		return startLine, endLine
+		return startLine, endLine + 1
 	}
 
 	endLine, _ = block.Position()
